@@ -19,7 +19,7 @@ func init() {
 			"(R03.2) a dominating guard G > 0 whose linear form equals EndTokenIndex-StartTokenIndex+1; (R03.3) StartLine/EndLine are the Line of the target document's token at exactly the stored Start/EndTokenIndex; " +
 			"(R03.4) the returned slice is an order-preserving filter of a slice sorted (after its last append) by a comparator whose first key is Confidence descending; (R03.5) Name/Variant/MatchType are decoded from the same corpus key that was scored; " +
 			"(R03.6) the key format of generateDocName agrees with the three decoders and every docs key comes from it; (R03.7) Copyright pseudo-matches have constant confidence 1.0 and StartLine = EndLine; (R03.8) the last-token access is guarded; " +
-			"(R03.9) the tokenizer's line counter advances at most once per consumed rune and deferred increments are paired with a swallowed newline. Necessary conditions of the property for all inputs and thresholds; Confidence <= 1.0 (float reasoning) is not decided.",
+			"(R03.9) the tokenizer's line counter advances at most once per consumed rune and deferred increments are paired with a swallowed newline; (R03.10) the line-to-tokens conversion emits at most one token per buffered word (token indices are bounded by the number of input words). Necessary conditions of the property for all inputs and thresholds; Confidence <= 1.0 (float reasoning) is not decided.",
 		Run: runC03,
 	})
 }
@@ -34,6 +34,35 @@ type structLit struct {
 	// the call (at) in addition to those at the literal itself.
 	at    ssa.Instruction
 	subst map[ssa.Value]ssa.Value
+	// owner: the function in whose frame the field values live after substitution (nil: fn)
+	owner *ssa.Function
+	inner []ssa.Instruction // call sites of the helpers nearer to the literal (deep expansion)
+}
+
+// expandLiteralDeep applies expandLiteral through up to three levels of unexported helpers.
+// Values are not substituted beyond the frame of stop.
+func expandLiteralDeep(p *core.Prog, lit structLit, stop *ssa.Function) []structLit {
+	cur := []structLit{lit}
+	for depth := 0; depth < 3; depth++ {
+		var next []structLit
+		changed := false
+		for _, l := range cur {
+			if own := l.owner; own == stop && stop != nil || (own == nil && l.fn == stop) {
+				next = append(next, l)
+				continue
+			}
+			ex := expandLiteral(p, l)
+			if len(ex) != 1 || ex[0].at != l.at {
+				changed = true
+			}
+			next = append(next, ex...)
+		}
+		cur = next
+		if !changed {
+			break
+		}
+	}
+	return cur
 }
 
 // facts: branch conditions that hold when the literal is built (local ones and those at the call site).
@@ -42,29 +71,49 @@ func (l structLit) facts() []core.Fact {
 	if l.at != nil && l.at != ssa.Instruction(l.alloc) {
 		out = append(out, core.FactsAtInstr(l.at)...)
 	}
+	for _, in := range l.inner {
+		out = append(out, core.FactsAtInstr(in)...)
+	}
 	return out
 }
 
 // expandLiteral: if fields of the literal are parameters of an unexported helper with call sites in its
 // package, return one copy of the literal per call site with the parameters substituted.
 func expandLiteral(p *core.Prog, lit structLit) []structLit {
+	own := lit.owner
+	if own == nil {
+		own = lit.fn
+	}
 	uses := false
 	for _, v := range lit.fields {
-		if prm, ok := core.Unspill(v).(*ssa.Parameter); ok && prm.Parent() == lit.fn {
+		v = core.Unspill(v)
+		if ld, ok := v.(*ssa.UnOp); ok {
+			// a field copied from a parameter: x.f
+			if fa, ok := ld.X.(*ssa.FieldAddr); ok {
+				v = core.Unspill(fa.X)
+			}
+		}
+		if prm, ok := v.(*ssa.Parameter); ok && prm.Parent() == own {
 			uses = true
 		}
 	}
-	if !uses || lit.fn.Object() == nil || lit.fn.Object().Exported() {
+	if !uses || own.Object() == nil || own.Object().Exported() {
 		return []structLit{lit}
 	}
 	var out []structLit
-	for _, g := range p.SrcFuncs(core.FuncPkgPath(lit.fn)) {
+	for _, g := range p.SrcFuncs(core.FuncPkgPath(own)) {
 		for _, call := range core.CallsIn(g) {
-			if eng.ResolveCallee(call.Common().Value) != lit.fn {
+			if eng.ResolveCallee(call.Common().Value) != own {
 				continue
 			}
-			nl := structLit{fn: lit.fn, alloc: lit.alloc, fields: map[string]ssa.Value{}, at: call, subst: map[ssa.Value]ssa.Value{}}
-			for i, prm := range lit.fn.Params {
+			nl := structLit{fn: lit.fn, alloc: lit.alloc, fields: map[string]ssa.Value{}, at: call, subst: map[ssa.Value]ssa.Value{}, owner: call.Parent()}
+			for k, v := range lit.subst {
+				nl.subst[k] = v
+			}
+			if lit.at != nil {
+				nl.inner = append(append([]ssa.Instruction{}, lit.inner...), lit.at)
+			}
+			for i, prm := range own.Params {
 				if i < len(call.Common().Args) {
 					nl.subst[prm] = core.Unspill(call.Common().Args[i])
 				}
@@ -206,6 +255,60 @@ func runC03(c *Ctx) {
 	c.R.RequireMin("R03.8", "constant-position accesses in match and the key decoders", len(obls), 2)
 
 	checkLineCounter(c, p, "R03.9")
+	checkOneTokenPerWord(c, p, "R03.10")
+}
+
+// loopDepthOf: the number of loops of the function that contain block b (headers that dominate b and that b
+// can reach again).
+func loopDepthOf(b *ssa.BasicBlock) int {
+	reach := map[*ssa.BasicBlock]bool{}
+	var walk func(x *ssa.BasicBlock)
+	walk = func(x *ssa.BasicBlock) {
+		for _, sc := range x.Succs {
+			if !reach[sc] {
+				reach[sc] = true
+				walk(sc)
+			}
+		}
+	}
+	walk(b)
+	n := 0
+	for h := b; h != nil; h = h.Idom() {
+		isHeader := false
+		for _, pr := range h.Preds {
+			if h.Dominates(pr) {
+				isHeader = true
+			}
+		}
+		if isHeader && reach[h] {
+			n++
+		}
+	}
+	return n
+}
+
+// checkOneTokenPerWord: token indices are compared with the number of input words, so the function that turns the
+// buffered words of a line into tokens may emit at most one token per buffered word: the token literal lies in the loop
+// over the words and in no loop nested inside it.
+func checkOneTokenPerWord(c *Ctx, p *core.Prog, rule string) {
+	fn := p.Func(v2pkg, "stringifyLineBuf")
+	if !c.R.Anchor(fn != nil, "v2.stringifyLineBuf") {
+		return
+	}
+	n := 0
+	for _, f := range pkgClosure(fn, v2pkg) {
+		if f != fn && f.Parent() == nil {
+			continue // other package-level functions (dictionary, cleanupToken) build no tokens of their own line
+		}
+		for _, lit := range structLits([]*ssa.Function{f}, "/v2.indexedToken") {
+			n++
+			d := loopDepthOf(lit.alloc.Block())
+			c.R.Check(d <= 1, rule, core.ShortFn(f)+": at most one token is produced per buffered word", p.Pos(lit.alloc.Pos()),
+				fmt.Sprintf("the token literal lies in %d loop(s)", d),
+				fmt.Sprintf("the token literal lies in %d nested loops: one buffered word can yield several tokens, so token indices can reach or exceed the number of input words", d))
+		}
+	}
+	c.R.RequireMin(rule, "token literals in stringifyLineBuf", n, 1)
 }
 
 func checkCopyrightLiteral(c *Ctx, p *core.Prog, lit structLit, rule string) {
